@@ -1068,3 +1068,9 @@ TABLE["C16"] += [
       (PW, "        if self.use_boost_serialization:\n            includes += \"#include <boost/serialization/export.hpp>\"\n",
        "        if self.use_boost_serialization and submodules is not None:\n            includes += \"#include <boost/serialization/export.hpp>\"\n")),
 ]
+TABLE["C15"] += [
+    B("overload-counter-keyed-by-the-last-name-component", {"X4"},
+      (XP, "            function_key = f\"{cpp_class}.{cpp_method}(", "            cls_ = cpp_class.rsplit('::', 1)[-1]\n            function_key = f\"{cls_}.{cpp_method}(")),
+    B("preamble-ignore-key-from-the-template-name", {"X1"},
+      (MW, "            uninstantiated_name = \"::\".join(cls.namespaces()[1:] + [cls.name])", "            uninstantiated_name = \"::\".join(cls.namespaces()[1:] + [cls.original.name])")),
+]
